@@ -98,6 +98,41 @@ def race_case(seed, i, engine):
     return core.Case("backend", lines, {"engine": engine, "race": True}, model_suite="sched")
 
 
+def overtaken_case(seed, i, engine):
+    """a range read at revision r that is IN FLIGHT (stopped at one of its storage calls) while a compaction at R > r is
+    accepted and carried out: it ends with an error or with the complete state at r, never with what the compaction left"""
+    r = rng_for(seed, "c08ov/%d" % i)
+    n = r.randint(2, 5)
+    m = r.randint(1, n)
+    lines = [hist.cfg_line(engine), "gated 1"]
+    j = 0
+    for a in range(n):
+        j += 1
+        lines += ["start p%d create %s %s" % (j, hx(PREFIX + b"/k%d" % a), hx(b"v"))] + ["step p%d" % j] * 3
+    for a in range(m):
+        j += 1
+        lines += ["start p%d update %s %s %d" % (j, hx(PREFIX + b"/k%d" % a), hx(b"w"), hist.INIT + a + 1)] + ["step p%d" % j] * 3
+    lines.append("rev")
+    at = hist.INIT + n
+    before = r.randint(0, 3)
+    lines += ["start c1 %s %s %s %d 0" % ("list", hx(PREFIX + b"/"), hx(PREFIX + b"0"), at)] + ["step c1"] * before
+    lines += ["start k91 compact %d" % (hist.INIT + n + r.randint(1, m))] + ["step k91"] * (8 + 2 * n) + ["floor"]
+    lines += ["step c1"] * 6
+    return core.Case("backend", lines, {"engine": engine, "overtaken": True, "n": n}, model_suite="sched")
+
+
+def overtaken_oracle(case):
+    n = case.meta["n"]
+    for i, out in enumerate(case.impl):
+        o = out.split()
+        if o[:3] == ["done", "c1", "list"] and len(o) >= 6 and o[3] != "err":
+            got = 0 if o[5] == "-" else len(o[5].split(","))
+            if got != n:
+                return ("line %d: a range read at a revision that holds %d keys, overtaken by a compaction above its revision, "
+                        "answered %d keys: %s" % (i + 1, n, got, out), "overtaken-read-incomplete")
+    return None
+
+
 def race_oracle(case):
     accepted = 0
     floor_rec = 0
@@ -119,10 +154,11 @@ def check(rep, tier, seed):
     n_hist, n_rounds = (24, 8) if tier == "quick" else (3000, 14)
     cases = [gen_case(seed, i, ENGINES[i % len(ENGINES)], n_rounds) for i in range(n_hist)]
     cases += [race_case(seed, i, ENGINES[i % 3]) for i in range(12 if tier == "quick" else 1500)]
+    cases += [overtaken_case(seed, i, ENGINES[i % 3]) for i in range(12 if tier == "quick" else 1500)]
     core.run_cases(cases)
     for c in cases:
         rep.count_case(c)
-        hit = race_oracle(c) if c.meta.get("race") else oracle(c)
+        hit = race_oracle(c) if c.meta.get("race") else overtaken_oracle(c) if c.meta.get("overtaken") else oracle(c)
         if hit:
             if core.handle_oracle_hit(rep, "C08", hit[1], c, hit[0], hit[1], shrink_fn=lambda x: oracle(x) is not None):
                 return
